@@ -185,3 +185,40 @@ Proof.
   split; [apply boundedb_sound; vm_compute; reflexivity|].
   vm_compute. repeat split; discriminate.
 Qed.
+
+(* ------------------------------------------------------------------ opening a stream vs the read side *)
+From MV Require Import Lib.Interleave Model.FlowOpen Proofs.FlowOpen.
+From MV Require Model.FlowOpenCases.
+
+(* MClientConn.WriteHeaders does newStream (window := initial window), the HEADERS write and the registration in
+   cc.streams in ONE cc.mu critical section (read from mhttp2.go) *)
+Theorem c18_client_open_atomic : h2_client_open_atomic = true.
+Proof. exact (eq_refl true). Qed.
+
+(* For ANY number of opener/sender threads, ANY script of peer SETTINGS_INITIAL_WINDOW_SIZE / WINDOW_UPDATE frames and
+   EVERY schedule of the micro-steps (Lib/Interleave): every stream's send window is
+   (last acknowledged initial window) - (DATA sent) + (increments granted) - RFC 7540 6.9.2 - and no DATA frame ever
+   exceeded the credit acknowledged at the time it was sent. *)
+Theorem c18_flow_open_safe : forall threads init sched,
+  let c := orun h2_client_open_atomic sched (threads, mkSh init []) in
+  Forall (os_ok (sh_init (snd c))) (sh_streams (snd c)).
+Proof. exact open_atomic_safe. Qed.
+Print Assumptions c18_flow_open_safe.
+
+(* with cc.mu released between newStream and the registration: SETTINGS lowering the window to 10 is acknowledged in the
+   gap, 1000 bytes are sent against it; a WINDOW_UPDATE in the gap is dropped *)
+Theorem c18_flow_open_refuted_when_split :
+  (let c := orun false split_witness_sched (split_witness_threads, mkSh 65535 []) in
+   sh_init (snd c) = 10 /\ map (fun s => (os_sent s, os_win s, os_over s)) (sh_streams (snd c)) = [(1000, 64535, true)] /\
+   forallb (os_okb (sh_init (snd c))) (sh_streams (snd c)) = false /\
+   map (fun s => (os_sent s, os_win s, os_over s)) (sh_streams (snd (orun true split_witness_sched (split_witness_threads, mkSh 65535 [])))) = [(10, 0, false)]) /\
+  (let c := orun false [0; 0; 1; 0]%nat ([TOpen 1 0 0; TReader [PWinUpd 1 500]], mkSh 100 []) in
+   map (fun s => (os_win s, os_wu s, os_reg s)) (sh_streams (snd c)) = [(100, 500, true)] /\
+   forallb (os_okb (sh_init (snd c))) (sh_streams (snd c)) = false).
+Proof. exact (conj open_split_refuted open_split_drops_window_update). Qed.
+Print Assumptions c18_flow_open_refuted_when_split.
+
+Example c18_flow_open_example :
+  let c := orun true [0; 2; 1; 2; 0; 1; 2; 1]%nat ([TOpen 1 0 300; TOpen 3 0 50; TReader [PSettings 100; PWinUpd 1 500; PSettings 0]], mkSh 65535 []) in
+  map (fun s => (os_id s, os_win s, os_sent s, os_wu s)) (sh_streams (snd c)) = [(1, 200, 300, 500); (3, -50, 50, 0)] /\ sh_init (snd c) = 0.
+Proof. vm_compute. split; reflexivity. Qed.
